@@ -18,8 +18,16 @@
 (* the rows of the denotation.  With the descent that follows every matching *)
 (* branch it is a theorem of the bounded model; with the code's descent      *)
 (* (PreferWildcardB3) TLC produces the programs of finding F2.               *)
+(* Stage B4 (same module): the mechanism of for_all - the condition is          *)
+(* evaluated once per universal value, its true results are completed over the *)
+(* condition's still unbound variables, projected onto the non-universal       *)
+(* variables, de-duplicated and intersected over the universal values, with an *)
+(* early exit; what the quantifier requires of its condition is a named switch.*)
 EXTENDS EQLMech2
-CONSTANT PreferWildcardB3   \* TRUE: IndexedCache.retrieve as the code has it (F1); FALSE: follow every matching branch
+CONSTANTS PreferWildcardB3,  \* TRUE: IndexedCache.retrieve before "fix: IndexedCache.retrieve ..." (wildcard branch
+                             \* preferred); FALSE: follow every matching branch (the current code)
+          ForAllKeepsConditionVars  \* TRUE: for_all requires all non-universal variables of its condition from the
+                             \* condition's results (commit "fix: for_all lost solutions ..."); FALSE: as before
 
 \* ---------------- the cache (IndexedCache + SeenSet) ----------------
 \* a = a binding restricted to the cache's keys (0 elsewhere); ents in insertion order; o = the stored is_false flag
@@ -70,6 +78,13 @@ KeySeq(q, keys) == SortSeq(SetToSeq(keys), LAMBDA x, y : DeclRank(q, x) < DeclRa
 \* a predicate call is a variable of the expression graph too: its id is one of the keys of every cache above it, it
 \* is bound (to the call's result) in the outputs of the call and never in a lookup.  Predicate leaves get the
 \* slots after the query's variables, in construction order (left to right); slot value 1 = True, 2 = False.
+\* construction of conditions that contain for_all (the generator never negates a quantifier)
+RECURSIVE Build4(_)
+Build4(c) ==
+  CASE c.k = "forall" -> [k |-> "forall", uv |-> c.uv[1], ue |-> c.ue, c |-> Build4(c.c)]
+    [] c.k = "and" -> [k |-> "and", l |-> Build4(c.l), r |-> Build4(c.r)]
+    [] c.k = "or"  -> [k |-> "elif", l |-> Build4(c.l), r |-> Build4(c.r)]
+    [] OTHER -> Build(c)
 RECURSIVE Number(_, _)
 Number(n, next) ==
   CASE n.k = "pred" -> [t |-> [k |-> "pred", inv |-> n.inv, p |-> n.p, args |-> n.args, slot |-> next], next |-> next + 1]
@@ -77,11 +92,13 @@ Number(n, next) ==
          LET L == Number(n.l, next)
              R == Number(n.r, L.next)
          IN [t |-> [n EXCEPT !.l = L.t, !.r = R.t], next |-> R.next]
+    [] n.k = "forall" -> LET C == Number(n.c, next) IN [t |-> [n EXCEPT !.c = C.t], next |-> C.next]
     [] OTHER -> [t |-> n, next |-> next]
 RECURSIVE NodeVars3(_)
 NodeVars3(n) ==
   CASE n.k = "pred" -> NodeVars(n) \cup {n.slot}
     [] n.k \in {"and", "elif"} -> NodeVars3(n.l) \cup NodeVars3(n.r)
+    [] n.k = "forall" -> {n.uv} \cup NodeVars3(n.c)
     [] OTHER -> NodeVars(n)
 
 \* ---------------- evaluator state: seen-sets and caches ----------------
@@ -104,7 +121,7 @@ StoreAll(outs, j, ckey, keys, S) ==
   IF j > Len(outs) THEN S
   ELSE StoreAll(outs, j + 1, ckey, keys, PutCache(S, ckey, CInsert(CacheOf(S, ckey), RestrictB(outs[j].b, keys), outs[j].f)))
 
-RECURSIVE Ev3(_, _, _, _, _, _, _, _, _), AndFold3(_, _, _, _, _, _, _, _, _, _, _), ElifFold3(_, _, _, _, _, _, _, _, _, _, _),
+RECURSIVE Ev3(_, _, _, _, _, _, _, _, _), ForAllFold(_, _, _, _, _, _, _, _, _, _), AndFold3(_, _, _, _, _, _, _, _, _, _, _), ElifFold3(_, _, _, _, _, _, _, _, _, _, _),
           RightTrue3(_, _, _, _, _, _, _, _, _)
 Ev3(n, path, b, ywf, RT, RF, S, q, W) ==
   CASE n.k \in {"cmp", "in"} ->
@@ -121,6 +138,10 @@ Ev3(n, path, b, ywf, RT, RF, S, q, W) ==
          IN [outs |-> [j \in 1..Len(outs) |->
                          Out([outs[j].b EXCEPT ![n.slot] = IF (IF n.inv THEN outs[j].f ELSE ~outs[j].f) THEN 1 ELSE 2], outs[j].f)],
              S |-> S]
+    [] n.k = "forall" ->
+         \* the universal values in domain order (for_all(u.n, c) ranges over the objects of u as well)
+         LET us == TypedDom(q, W, n.uv)
+         IN ForAllFold(n, path, b, RT, RF, us, 1, <<>>, S, <<q, W>>)
     [] n.k = "and" ->
          LET L == Ev3(n.l, Append(path, 0), b, ywf,
                       NodeVars3(n.r) \cup RT \cup (IF AndLeftTrueNeedsFalseSet THEN RF ELSE {}), NodeVars3(n.r) \cup RF, S, q, W)
@@ -132,6 +153,40 @@ Ev3(n, path, b, ywf, RT, RF, S, q, W) ==
                      kept == SelectSeq(R.outs, LAMBDA o : ywf \/ ~o.f)
                  IN [outs |-> kept, S |-> StoreAll(kept, 1, <<path, "right">>, NodeVars3(n.r), R.S)]
             ELSE ElifFold3(n, path, b, ywf, RT, RF, L.outs, 1, <<>>, L.S, <<q, W>>)
+
+RECURSIVE Dedupe(_, _, _)
+Dedupe(bs, j, acc) == IF j > Len(bs) THEN acc
+                      ELSE Dedupe(bs, j + 1, IF \E i \in 1..Len(acc) : acc[i] = bs[j] THEN acc ELSE Append(acc, bs[j]))
+\* the variables of a condition in the order of their first occurrence (the order of _unique_variables_)
+RECURSIVE VarOcc(_)
+VarOcc(n) ==
+  CASE n.k \in {"cmp", "in"} -> <<VarOf(n.l), VarOf(n.r)>>
+    [] n.k = "truth" -> <<VarOf(n.e)>>
+    [] n.k = "pred" -> [j \in 1..Len(n.args) |-> VarOf(n.args[j])]
+    [] n.k \in {"and", "elif"} -> VarOcc(n.l) \o VarOcc(n.r)
+    [] n.k = "forall" -> <<n.uv>> \o VarOcc(n.c)
+VarSeq(n) == Dedupe(SelectSeq(VarOcc(n), LAMBDA v : v # 0), 1, <<>>)
+\* the non-universal variables of the condition whose bindings are intersected (predicate variables are not among them)
+CondVars(n, q) == {v \in NodeVars3(n.c) : v <= NVars(q)} \ {n.uv}
+RECURSIVE BindAll(_, _, _, _, _)
+BindAll(vs, k, b, q, W) ==          \* _bind_unbound_condition_variables_: the unbound ones over their domains, in order
+  IF k > Len(vs) THEN <<b>>
+  ELSE IF b[vs[k]] # 0 THEN BindAll(vs, k + 1, b, q, W)
+  ELSE LET d == TypedDom(q, W, vs[k])
+       IN FlattenSeqs([j \in 1..Len(d) |-> BindAll(vs, k + 1, [b EXCEPT ![vs[k]] = d[j]], q, W)])
+ForAllFold(n, path, b, RT, RF, us, i, sol, S, qw) ==
+  IF i > Len(us) THEN [outs |-> [j \in 1..Len(sol) |-> Out(MergeB(b, sol[j]), FALSE)], S |-> S]
+  ELSE LET q == qw[1]  W == qw[2]
+           cv == CondVars(n, q)
+           extra == {n.uv} \cup (IF ForAllKeepsConditionVars THEN cv ELSE {})
+           R == Ev3(n.c, Append(path, 1), [b EXCEPT ![n.uv] = us[i]], FALSE, RT \cup extra, RF \cup extra, S, q, W)
+           trues == SelectSeq(R.outs, LAMBDA o : ~o.f)
+           vs == SelectSeq(VarSeq(n.c), LAMBDA v : v \in cv)      \* in the order of their first occurrence in the condition
+           complete == FlattenSeqs([j \in 1..Len(trues) |-> BindAll(vs, 1, trues[j].b, q, W)])
+           current == Dedupe([j \in 1..Len(complete) |-> RestrictB(complete[j], cv)], 1, <<>>)
+           sol2 == IF i = 1 THEN current ELSE SelectSeq(sol, LAMBDA d : \E j \in 1..Len(current) : current[j] = d)
+       IN IF current = <<>> \/ sol2 = <<>> THEN [outs |-> <<>>, S |-> R.S]       \* the universal fails: early exit
+          ELSE ForAllFold(n, path, b, RT, RF, us, i + 1, sol2, R.S, qw)
 
 AndFold3(n, path, b, ywf, RT, RF, louts, i, acc, S, qw) ==
   IF i > Len(louts) THEN [outs |-> acc, S |-> S]
@@ -188,7 +243,7 @@ EmptyS == [st |-> EmptySt, c |-> [x \in {} |-> EmptyCache]]
 \* one evaluation from the caches `c` left by the previous ones: [rows, c]
 Evaluate3(q, W, c) ==
   IF q.cond.k = "true" THEN [rows |-> MechRowSeq2(q, W), c |-> c]
-  ELSE LET N == Number(Build(q.cond), NVars(q) + 1)
+  ELSE LET N == Number(Build4(q.cond), NVars(q) + 1)
            b0 == [i \in 1..(N.next - 1) |-> 0]
            R == Ev3(N.t, <<>>, b0, FALSE, SelVars(q), SelVars(q), [st |-> EmptySt, c |-> c], q, W)
            outs == SelectSeq(R.outs, LAMBDA o : ~o.f)
